@@ -104,6 +104,22 @@ theorem supported_has_version1 :
 theorem supported_no_mrg_rxbuf :
     ∀ f ∈ Generated.Features.all, f.supported.testBit 15 = false := by decide
 
+/-- feature bits each driver implements (device-specific bits its code acts on, plus
+INDIRECT_DESC 28, EVENT_IDX 29, VERSION_1 32, ACCESS_PLATFORM 33) — written down from the drivers, not
+generated -/
+def implemented : String → Nat
+  | "blk" => 0x330000000 ||| 2 ^ 5 ||| 2 ^ 9          -- RO, FLUSH
+  | "console" => 0x330000000 ||| 2 ^ 0 ||| 2 ^ 2      -- SIZE, EMERG_WRITE
+  | "gpu" => 0x330000000 ||| 2 ^ 1                    -- EDID
+  | "netraw" | "net" => 0x330000000 ||| 2 ^ 5 ||| 2 ^ 16  -- MAC, STATUS
+  | _ => 0x330000000
+
+/-- **no driver accepts a feature it does not implement**: the set each constructor writes to the
+driver-features register when all 64 bits are offered (observed on the current tree) lies inside the
+implemented set; with `negotiated = offered ∧ supported` this bounds every negotiation -/
+theorem supported_within_implemented :
+    ∀ f ∈ Generated.Features.all, f.supported &&& (2 ^ 64 - 1 - implemented f.name) = 0 := by decide
+
 def flatEvs (d : Driver) : List CEv := d.body.flatMap (·.evs)
 
 /-- skeleton scan: `notify` only after `finish_init` (the raw net constructor, which contains its
